@@ -6,8 +6,10 @@ from pedantic.exceptions import PedanticTypeCheckException
 
 
 class GeneratorWrapper:
-    def __init__(self, wrapped: Generator, expected_type: Any, err_msg: str, type_vars: Dict[TypeVar, Any]) -> None:
+    def __init__(self, wrapped: Generator, expected_type: Any, err_msg: str, type_vars: Dict[TypeVar, Any],
+                 context: Dict[str, Any] = None) -> None:
         self._generator = wrapped
+        self._context = context
         self._err = err_msg
         self._yield_type = None
         self._send_type = None
@@ -35,13 +37,15 @@ class GeneratorWrapper:
                 assert_value_matches_type(value=ex.value,
                                           type_=self._return_type,
                                           type_vars=self._type_vars,
-                                          err=self._err)
+                                          err=self._err,
+                                          context=self._context)
             raise ex
 
         assert_value_matches_type(value=returned_value,
                                   type_=self._yield_type,
                                   type_vars=self._type_vars,
-                                  err=self._err)
+                                  err=self._err,
+                                  context=self._context)
         return returned_value
 
     def close(self) -> None:
@@ -51,7 +55,8 @@ class GeneratorWrapper:
         state = inspect.getgeneratorstate(self._generator)
 
         if state == inspect.GEN_SUSPENDED:  # the body waits at a yield: obj becomes the value of that yield expression
-            assert_value_matches_type(value=obj, type_=self._send_type, type_vars=self._type_vars, err=self._err)
+            assert_value_matches_type(value=obj, type_=self._send_type, type_vars=self._type_vars, err=self._err,
+                                      context=self._context)
 
         try:
             returned_value = self._generator.send(obj)
@@ -60,13 +65,15 @@ class GeneratorWrapper:
                 assert_value_matches_type(value=ex.value,
                                           type_=self._return_type,
                                           type_vars=self._type_vars,
-                                          err=self._err)
+                                          err=self._err,
+                                          context=self._context)
             raise ex
 
         assert_value_matches_type(value=returned_value,
                                   type_=self._yield_type,
                                   type_vars=self._type_vars,
-                                  err=self._err)
+                                  err=self._err,
+                                  context=self._context)
         return returned_value
 
     def _set_and_check_return_types(self, expected_return_type: Any) -> Any:
